@@ -7,7 +7,7 @@ THEOREMS = ["UrcuVerif.Signal.handler_balanced", "UrcuVerif.Signal.read_ongoing_
             "UrcuVerif.Gp.gp_guarantee_with_handlers", "UrcuVerif.Gp.inv_sigPush", "UrcuVerif.Gp.inv_sigPop",
             "UrcuVerif.Gp.inv_step"]
 TRUSTED = ["Lean 4.33 kernel; axioms ⊆ {propext, Classical.choice, Quot.sound}",
-           "a signal handler runs to completion on the interrupted thread before that thread's code resumes (POSIX); handlers are delivered at every shimmed access / barrier / lock event of the thread (the only thread-private access between two such points is the plain read of the thread's own word, so every distinct interruption class is reachable); real asynchronous delivery at instruction granularity is not exercised",
+           "a signal handler runs to completion on the interrupted thread before that thread's code resumes (POSIX); in the tie handlers are delivered at every shimmed access / barrier / lock event of the thread (the only thread-private access between two such points is the plain read of the thread's own word, so every distinct interruption class is reachable); real asynchronous delivery at instruction granularity is exercised by a separate stress run of the unshimmed sources (harness/scen/sig_real.c: supporting exploration, oracles only)",
            "same grace-period model and tie as C01 (Gp/Flip.lean with handler frames sigPush/sigPop); qsbr excluded as documented",
            "bp: registration and synchronize_rcu run with signals blocked (observed as SIGMASK events in the trace; the runtime does not deliver synthetic signals while blocked)"]
 OWN = {"sigbalance", "gp", "litmus", "SELFLOCK"}
@@ -29,7 +29,42 @@ def run(chk):
     h = chk.cov.get("branch_histogram", {})
     chk.cov["interruption_classes"] = {k: v for k, v in h.items() if k.startswith("sig_")}
     gp_common.report(chk, fails, OWN, gp_common.search_own(chk, OWN, "safety", 200 if chk.tier == "quick" else 2000, extra_all=sig, configs=CONFIGS))
+    if not chk.violations:
+        real_signal_stress(chk)
+
+
+def real_signal_stress(chk):
+    """Supporting exploration: REAL asynchronous signals (pthread_kill at random instants) against the unshimmed flavor sources,
+    handler = nested read-side section; oracles: reader word balanced around the handler, no poisoned object seen in any section,
+    progress.  Closes the gap 'synthetic delivery happens at shim points only'."""
+    import os
+    src = os.path.join(vlib.HARN, "scen", "sig_real.c")
+    res = {}
+    secs = 1 if chk.tier == "quick" else 8
+    for name, flags in (("memb", ["-DRCU_MEMBARRIER"]), ("mb", ["-DRCU_MB"]), ("bp", ["-DFLAVOR_BP"])):
+        cmd = ["gcc", "-O2", "-g", "-pthread", "-w"] + vlib.CFLAGS_REPO + flags + ["-o", os.path.join(vlib.BUILD, "sig_real_" + name), src] + \
+              vlib.rsrc("compat_arch.c", "compat_futex.c")
+        rc, log = vlib.sh(cmd, timeout=300)
+        if rc != 0:
+            chk.fail("build", {"theorem": "harness/scen/sig_real.c does not compile against /repo (%s)" % name, "lean_error": log[-1500:]}, nofail=True)
+            return
+        args = [os.path.join(vlib.BUILD, "sig_real_" + name), str(secs), str(chk.seed)]
+        rc, out, err = vlib.sh2(args, timeout=secs + 200)
+        chk.cov["evaluations"] += 1
+        res[name] = out.strip()[-200:]
+        if rc == 3:
+            chk.fail("input", {"cmd": args, "scenario": "sig_real", "what": "real asynchronous signals, implementation oracle: " +
+                               "; ".join(l for l in err.splitlines() if l.startswith("ORACLE"))[:600]})
+            break
+        if rc != 0:
+            chk.fail("input", {"cmd": args, "scenario": "sig_real", "what": "real asynchronous signals: the program crashed / hung (rc=%d): %s" % (rc, err[-300:])})
+            break
+    chk.cov["real_signal_stress"] = res
 
 
 def replay(rp):
+    if rp.get("scenario") == "sig_real":
+        rc, out, err = vlib.sh2([str(x) for x in rp["cmd"]], timeout=600)
+        print(out, err)
+        return 1 if rc else 0
     return gp_common.replay(rp)
